@@ -16,6 +16,9 @@ func opWindow(fields []string) string {
 	kind, body, text := unhx(fields[0]), unhx(fields[1]), unhx(fields[2])
 	runOne := func(clause string) (string, string) {
 		src := kind + " " + clause + " " + body
+		if strings.HasSuffix(clause, "\x00") {
+			src = kind + " " + strings.TrimSuffix(clause, "\x00") + body // glued
+		}
 		v, class := safeCompile(src)
 		if v == nil {
 			return "COMPILE " + strings.Split(class, " ")[0], "-"
@@ -45,6 +48,17 @@ func opWindow(fields []string) string {
 	add := func(desc, clause string) {
 		r, a := runOne(clause)
 		out = append(out, "CL "+desc+"|"+r+"|"+a)
+	}
+	// the clause GLUED to the body (no blank between the count and a body that starts with a quote, bracket or brace): the
+	// same clause as with a blank.  runOne puts a blank after the clause; a trailing \x00 asks for none.
+	if len(body) > 0 && strings.IndexByte("'\"({", body[0]) >= 0 {
+		for i := 0; i <= 2; i++ {
+			add(fmt.Sprintf("top:%d", i), fmt.Sprintf("top %d\x00", i))
+			add(fmt.Sprintf("take:%d", i), fmt.Sprintf("take %d\x00", i))
+			add(fmt.Sprintf("skip:%d", i), fmt.Sprintf("skip %d\x00", i))
+			add(fmt.Sprintf("last:%d", i+1), fmt.Sprintf("last %d\x00", i+1))
+			add(fmt.Sprintf("skiptake:%d:1", i), fmt.Sprintf("skip %d take 1\x00", i))
+		}
 	}
 	for i := 0; i <= lim; i++ {
 		add(fmt.Sprintf("top:%d", i), fmt.Sprintf("top %d", i))
